@@ -120,6 +120,10 @@ impl Family {
 
 pub trait Property: Sync + Send {
     fn id(&self) -> &'static str;
+    /// evidence level; must equal the category claimed in MANIFEST.json
+    fn level(&self) -> &'static str {
+        "exploration"
+    }
     fn rule(&self) -> String;
     fn assumptions(&self) -> Vec<String> {
         Vec::new()
